@@ -3,6 +3,7 @@
   Property theorems only; lemmas live in `Lemmas/`.
 -/
 import MiniMoka.Lemmas.UnsyncTrace
+import MiniMoka.Lemmas.SketchLaws
 
 namespace MiniMoka
 namespace Props
@@ -15,13 +16,13 @@ and every history, every snapshot taken after any operation shows
 `entry_count = number of resident entries` and `weighted_size = Σ their weights`, the
 weights being both the stored ones and the weigher applied to the resident key and value.
 `SmallSketch` is the documented limit (popularity-sketch table below 2^28 slots). -/
-theorem C10_unsync {P : Sketch → Prop} (L : SketchLaws P) (p : Params) (hq : NoQuirks p)
+theorem C10_unsync (p : Params) (hq : NoQuirks p)
     (hsm : SmallSketch p) (h : List Op) :
     Spec.oracleC10 .unsync p.weigh (Unsync.trace p h) = true := by
   unfold Spec.oracleC10 Unsync.trace
-  apply run_all L hq hsm _ _ h {} (init_inv L p)
+  apply run_all sketchLaws hq hsm _ _ h {} (init_inv sketchLaws p)
   intro s op hi
-  rw [step_obs L hq hsm hi op]
+  rw [step_obs sketchLaws hq hsm hi op]
   cases op <;> simp only []
   exact snapshot_counters hi.inv
 
